@@ -540,9 +540,9 @@ def main(argv: Sequence[str]) -> int:
     mon.uninstall()
 
     workers = max(1, min(8, (os.cpu_count() or 2) // 2))
-    shards = workers * (1 if chk.tier == "quick" else 4)
+    shards = workers  # all shards run side by side until the wall budget ends them
     per = (total + shards - 1) // shards
-    need = chk.pick(600, 8000)
+    need = chk.pick(600, 6000)
     at_least = (need + shards - 1) // shards
     hard_deadline = chk.t0 + 2 * budget
     jobs = [(k, per, argv, deadline, n_strings, at_least, hard_deadline) for k in range(shards)]
@@ -558,7 +558,7 @@ def main(argv: Sequence[str]) -> int:
     node_leg(chk, node_cases[: chk.pick(1500, 6000)])
 
     chk.require_min("monitor_parse_calls", 300)
-    chk.require_min("monitor_fix_calls", chk.pick(300, 6000))
+    chk.require_min("monitor_fix_calls", chk.pick(300, 4000))
     chk.require_min("patterns_with_astral_construct", 200)
     chk.require_min("patterns_rewritten", 200)
     chk.require_min("patterns_compared", 300)
